@@ -289,6 +289,25 @@ def all_ops(maxidx, maxstep, maxnew, vals, setfocus=True):
     return ops
 
 
+def rep_ops(base):
+    """A small alphabet with a few representatives of every operation kind (fresh values from `base`),
+    used for exhaustive PAIRS / TRIPLES of operations: multi-step interactions such as a call that leaves
+    stale private state behind which only a later, different call exposes."""
+    f = lambda k: [base + j for j in range(k)]  # noqa: E731
+    ops = [mkop("setslice", NONE, NONE, NONE, []), mkop("setslice", 0, 0, NONE, f(1)), mkop("setslice", 1, 2, NONE, f(2)),
+           mkop("setslice", NONE, NONE, NONE, f(1)), mkop("setslice", NONE, NONE, 2, f(1)), mkop("setslice", -1, NONE, NONE, f(2)),
+           mkop("delslice", NONE, NONE, NONE), mkop("delslice", 0, 1, NONE), mkop("delslice", 1, NONE, NONE),
+           mkop("delslice", NONE, NONE, 2), mkop("delslice", NONE, NONE, -1), mkop("delslice", -1, NONE, NONE),
+           mkop("delslice", NONE, NONE, -2),
+           mkop("setitem", 0, new=f(1)), mkop("setitem", -1, new=f(1)), mkop("delitem", 0), mkop("delitem", -1), mkop("delitem", 1),
+           mkop("insert", 0, new=f(1)), mkop("insert", 1, new=f(1)), mkop("insert", 9, new=f(1)),
+           mkop("pop", NONE), mkop("pop", 0), mkop("setfocus", 0), mkop("setfocus", 1), mkop("setfocus", -1), mkop("setfocus", 2),
+           mkop("append", new=f(1)), mkop("extend", new=[]), mkop("extend", new=f(1)), mkop("extend", new=f(2)),
+           mkop("iadd", new=[]), mkop("iadd", new=f(1)), mkop("iadd", new=f(2)), mkop("remove", 1), mkop("remove", 2),
+           mkop("reverse"), mkop("sort"), mkop("clear"), mkop("imul", 0), mkop("imul", 1), mkop("imul", 2)]
+    return ops
+
+
 def states(maxlen, dup_vals=2):
     seen = []
     for n in range(maxlen + 1):
@@ -418,6 +437,35 @@ def run(chk):
                 if cls is ML and op["n"] == "setfocus":
                     continue
                 traces.append(record(cls, items, f, [op]))
+    # ---- code -> spec, exhaustive PAIRS (thorough: also TRIPLES) over a representative alphabet ----
+    r1, r2, r3 = rep_ops(20), rep_ops(30), rep_ops(40)
+    n_pairs = 0
+    mfl_states = states(3) if not quick else [([1, 2, 3], 0), ([1, 2, 3], 1), ([1, 2, 3], 2), ([1, 2], 0), ([1, 2], 1), ([1], 0),
+                                              ([], -1), ([1, 1, 2], 1)]
+    for items, f in mfl_states:
+        for o1 in r1:
+            for o2 in r2:
+                traces.append(record(MFL, items, f, [o1, o2]))
+                n_pairs += 1
+    pair_states = [([1, 2, 3], 2), ([1, 2], 1), ([], -1)] if not quick else [([1, 2, 3], 2)]
+    for cls in (SFLW, PileC, ColumnsC, GridFlowC, ML):
+        for items, f in pair_states:
+            for o1 in r1:
+                for o2 in r2:
+                    if cls is ML and "setfocus" in (o1["n"], o2["n"]):
+                        continue
+                    traces.append(record(cls, items, f, [o1, o2]))
+                    n_pairs += 1
+    n_triples = 0
+    if not quick:
+        for items, f in [([1, 2, 3], 2), ([1, 2, 3], 0), ([2, 1], 1), ([1], 0), ([], -1)]:
+            for o1 in r1:
+                for o2 in r2:
+                    for o3 in r3:
+                        traces.append(record(MFL, items, f, [o1, o2, o3]))
+                        n_triples += 1
+    chk.cov["pair_histories"] = n_pairs
+    chk.cov["triple_histories"] = n_triples
     # ---- code -> spec, seeded random histories --------------------------------------------
     n_rand = 1500 if quick else 40000
     for i in range(n_rand):
